@@ -68,6 +68,12 @@ CLAIMED['C02'] = dict(
    text="Proved for all ints and all binary64 values: the calibration part of the Array codec round-trips -- shape, depth, units, names and labels identical, every dim vector elementwise equal (a vector passing the exact linearity test is stored as two entries and re-expands to equal values; any other is stored in full and returned as is); what is stored per axis has 2 or N entries; every constructed Array satisfies the hypotheses. Data/dtype/shape/units/name and label-addressed slices across 18 dtypes x 6 memory layouts: correspondence (stored dim datasets bit-exact) + oracle on the read-back object.",
    note=TB + ARRM + "PARTIAL: bulk data preservation (h5py) is observed, not modelled. Extents >= 1.",
    technique="Coq proof (codec round-trip by construction of the linearity test) + bit-exact correspondence with files", ref="5 C02")
+
+MDM = ("Executable model of Metadata._save_item/_read_item (coq/Model/Md.v) over a value universe that also contains unsupported and reader-produced forms, with numpy promotion of number sequences, 0-d datasets/.item(), tuple(array) written out; tied to /repo by evaluating every case in Coq against the raw file item (h5py walk) and the read-back value, floats bit-exact. ")
+CLAIMED['C03'] = dict(
+   text="Theorem by induction over the value universe (nested lists, dicts to ANY depth): every documented value saves, reads back, and is kind-sensitively equal (bool/int/float/complex/str/None of the same kind and bit-equal, arrays same dtype/shape/content, tuples stay tuples and lists lists with elements losslessly converted to the common numeric kind, dict keys and values recursively). Every 'type' tag the writer stamps is dispatched by the reader, over tag lists generated from the sources. The two forced hypotheses have refutation witnesses (known findings F10, F19). Correspondence: ~650 values incl. every pool leaf at top level and under 1..6 dict levels, on root / inner node / leaf Array, with a second Metadata beside it; oracle = independent Python kind-sensitive comparison.",
+   note=TB + MDM + "Modelled not verified: numpy promotion rules, h5py refusing U/O dtypes and NUL in strings, array content by token. 'Any number of Metadata per node, any node position' is exercised by the correspondence (2 per node, 3 positions) and by the tree-level model (bundles).",
+   technique="Coq proof by nested structural induction over the value universe + bit-exact vm_compute correspondence", ref="5 C03")
 PENDING = {}
 props = [json.loads(l) for l in open(os.path.join(V, 'properties.jsonl'))]
 checks, na = [], []
